@@ -130,6 +130,87 @@ def par_runs(machines, facs, seed, n_sched, line_funcs):
     return out
 
 
+def par_held_runs(machines, facs, seed, per_machine):
+    """A second request arrives while the first transition is inside the LEAVE handler of the state it is leaving: the engine
+    has not moved yet, so a request that is not allowed in that state must raise and change nothing (then the first completes)."""
+    out = []
+    rng = random.Random(seed)
+    cases = []
+    for mi, M in enumerate(machines, start=1):
+        tn = list(M["trans"])
+        starts = [[]] + [[t] for t in tn if M["init"] in M["trans"][t]["src"]][:3]
+        cand = []
+        for pre in starts:
+            c = M["init"] if not pre else M["trans"][pre[0]]["dst"]
+            for t1 in tn:
+                if c not in M["trans"][t1]["src"] or M["trans"][t1]["dst"] == c:
+                    continue
+                d = M["trans"][t1]["dst"]
+                later = [t for t in tn if c not in M["trans"][t]["src"] and d in M["trans"][t]["src"]]
+                other = [t for t in tn if c not in M["trans"][t]["src"]]
+                for t2 in (later[:2] or other[:1]):
+                    cand.append((pre, c, t1, t2))
+        rng.shuffle(cand)
+        for pre, c, t1, t2 in cand[:per_machine]:
+            cases.append((mi, M, pre, c, t1, t2))
+    for mi, M, pre, c0, t1, t2 in cases:
+        rec = {}
+
+        def main(s, M=M, pre=pre, t1=t1, t2=t2, rec=rec, c0=c0):
+            log = []
+            mach, sts = smgen.make_real(M, facs, log)
+            for t in pre:
+                try:
+                    mach.request(t)
+                except Exception:  # noqa: BLE001
+                    pass
+            c = mach.current_state.name
+            if c != c0:
+                rec["skip"] = True          # an enter handler of the start state moved on: not the planned situation
+                return
+            log.clear()
+            inside, release = simrt.Event(), simrt.Event()
+            held = {"n": 0}
+
+            def hold(_d):
+                if held["n"] == 0:
+                    held["n"] = 1
+                    inside.set()
+                    release.wait()
+
+            sts[c].events.leave.register(hold)
+            res = {}
+
+            def worker(k, t):
+                try:
+                    mach.request(t)
+                    res[k] = "ok"
+                except Exception as exc:  # noqa: BLE001
+                    res[k] = type(exc).__name__
+
+            th1 = simrt.Thread(target=worker, args=(1, t1), name="req1")
+            th1.start()
+            inside.wait()
+            th2 = simrt.Thread(target=worker, args=(2, t2), name="req2")
+            th2.start()
+            th2.join()
+            release.set()
+            th1.join()
+            ob = smgen.observe(mach, sts)
+            ob.update({"res1": res.get(1, "?"), "res2": res.get(2, "?"), "ev": [list(e) for e in log]})
+            rec.update({"kind": "par", "m": mi, "c": c, "t1": t1, "t2": t2, "obs": ob})
+
+        s = simrt.run(main, seed=1, policy="fifo", max_vtime=1e6)
+        if s.outcome != "done" or s.errors:
+            raise Machinery(f"par-held run failed: {s.outcome} {s.errors[:1]} {s.wedge_info}")
+        if rec.get("skip") or not rec:
+            continue
+        rec["sched_seed"] = 1
+        rec["choices"] = []
+        out.append(rec)
+    return out
+
+
 def judge(ctx, wd, records, label):
     """TLC (SmJudge) decides every recorded observation. Returns verdict list aligned with records."""
     # dedupe identical observations to keep the batch small
@@ -247,6 +328,24 @@ def run(ctx: Ctx):
             rec.update(features(M, b))
             ctx.violation(rec)
     ctx.sample({"concurrent": pars[0]} if pars else {}, cap=6)
+    # a request that arrives while the first transition is still in its source state's leave handler
+    helds = par_held_runs(machines, facs, ctx.seed + 3, 3 if ctx.quick else 10)
+    if len(helds) < 30:
+        raise Machinery(f"too few held-in-leave-handler cases: {len(helds)}")
+    hbatch, hgroups, hverd = judge(ctx, wd, helds, "parheld")
+    ctx.traces += len(helds)
+    ctx.evaluations += len(helds)
+    ctx.extra["held_in_leave_handler_cases"] = len(helds)
+    for b, rs in zip(hbatch, hgroups):
+        v = hverd[b["id"]]
+        M = machines[b["m"] - 1]
+        if not v["ok"] or b["obs"]["res2"] == "ok":
+            rec = {"check": "par-held-in-leave-handler", "diff": "not serializable" if not v["ok"] else "request accepted in a state that does not allow it",
+                   "from": b["c"], "t1": b["t1"], "t2": b["t2"], "observed": b["obs"], "expected_one_order": v.get("exp"), "machine_def": M,
+                   "what": f"request {b['t2']} (not allowed in {b['c']}) made while {b['t1']} was inside the leave handler of {b['c']} of {M['name']}: "
+                           f"result {b['obs']['res2']}, final state {b['obs']['cur']}, active {b['obs']['active']}"}
+            rec.update(features(M, b))
+            ctx.violation(rec)
 
     # ---- Leg M: code-shaped engine model against the monitor, all interleavings of two requesters
     nm = min(len(machines), 30 if ctx.quick else 80)
@@ -274,7 +373,7 @@ def run(ctx: Ctx):
 
     ctx.rule = ("every (machine, current, request) edge of the SmAbs transition relation replayed on the real engine "
                 "via a shortest path, plus random walks of 25 requests, plus pairs of concurrent requests under "
-                "line-level preemption; non-trivial = performed transition (result ok)")
+                "line-level preemption, plus a second (disallowed) request made while the first is inside its source state's leave handler; non-trivial = performed transition (result ok)")
     ctx.extra["machines"] = {"shipped": 10, "generated": n_random}
     ctx.assumptions += ["SmAbs is the reading of the property statement; enter order child-first is taken from the "
                         "code only to place nested requests", "simrt shims implement CPython primitive semantics"]
